@@ -49,6 +49,10 @@ struct Skel {
     /// instruction-index gaps (see `FnSpec::gaps`): blocks as `remove_instruction` leaves them
     #[serde(default)]
     gaps: Vec<(usize, usize)>,
+    /// blocks whose last instruction is an `Operation::Branch` (a resolved computed jump: the
+    /// block keeps its out-edges) instead of a nop
+    #[serde(default)]
+    branch_last: Vec<usize>,
 }
 
 #[derive(Clone, Copy, Debug, Serialize, Deserialize, PartialEq, Eq, Hash)]
@@ -91,12 +95,18 @@ impl Skel {
         let blocks = self
             .blocks
             .iter()
-            .map(|n| {
+            .enumerate()
+            .map(|(bi, n)| {
                 (0..*n)
-                    .map(|_| {
+                    .map(|k| {
                         let a = addr;
                         addr += 4;
-                        OpSpec { op: il::Operation::Nop { placeholder: None }, address: Some(a) }
+                        let op = if k + 1 == *n && self.branch_last.contains(&bi) {
+                            il::Operation::Branch { target: il::expr_const(0x4000, 32) }
+                        } else {
+                            il::Operation::Nop { placeholder: None }
+                        };
+                        OpSpec { op, address: Some(a) }
                     })
                     .collect()
             })
@@ -134,6 +144,7 @@ fn decode(t: &mut Tape) -> Case {
         entry: g.spec.entry.unwrap_or(0),
         exit: g.spec.exit.unwrap_or(n - 1),
         gaps: Vec::new(),
+        branch_last: Vec::new(),
     };
     // gen_fn repairs reachability by adding edges, which leaves few sinks: sometimes turn blocks
     // into sinks (more acyclic shapes, several exits, more unreachable parts)
@@ -177,6 +188,17 @@ fn decode(t: &mut Tape) -> Case {
             let len = skel.blocks[b];
             let k = if len >= 2 && t.chance(3, 4) { t.range(1, len - 1) } else { t.below(len + 1) };
             skel.gaps.push((b, k));
+        }
+    }
+    // blocks that end in a branch instruction and still have their out-edges
+    if t.chance(1, 3) {
+        for _ in 0..t.range(1, 2) {
+            let with_outs: Vec<usize> = (0..n).filter(|b| skel.blocks[*b] >= 1 && skel.edges.iter().any(|e| e.0 == *b)).collect();
+            let any: Vec<usize> = (0..n).filter(|b| skel.blocks[*b] >= 1).collect();
+            let pool = if !with_outs.is_empty() && t.chance(4, 5) { with_outs } else { any };
+            if !pool.is_empty() {
+                skel.branch_last.push(pool[t.below(pool.len())]);
+            }
         }
     }
     Case { skel, kind, monotone, seed, size, backward, force, budget }
@@ -656,6 +678,9 @@ fn check(case: &Case, obs: &mut Obs) -> Result<(), Failure> {
     if case.skel.gaps.iter().any(|(b, k)| *k >= 1 && *k < case.skel.blocks[*b]) {
         obs.class("index-gap-inside-block");
     }
+    if case.skel.branch_last.iter().any(|b| case.skel.blocks[*b] >= 1 && case.skel.edges.iter().any(|e| e.0 == *b)) {
+        obs.class("block-ending-in-branch-with-out-edges");
+    }
     let an = An {
         kind: case.kind,
         monotone: case.monotone,
@@ -968,6 +993,7 @@ fn main() -> std::process::ExitCode {
         ("multiple-exits", 0.05),
         ("unreachable-feeds-live", 0.03),
         ("index-gap-inside-block", 0.03),
+        ("block-ending-in-branch-with-out-edges", 0.10),
         ("nontrivial", 0.20),
         ("result-err-ordering", 0.03),
         ("budget-exhausted-err", 0.05),
